@@ -29,7 +29,7 @@ meta["ran"].append("demo.py with PYTHONPATH=<changed tree>/src and with PYTHONPA
 print("demo: changed exit", rc_changed, "| unchanged exit", rc_base)
 t = time.time()
 env = dict(os.environ, VERIF_REPO=wt)
-p = subprocess.run([os.path.join(ROOT, "vcheck"), prop, "--no-evidence"], env=env,
+p = subprocess.run([os.path.join(ROOT, "vcheck"), prop, "--no-evidence", "--budget", "900"], env=env,
                    capture_output=True, text=True, cwd=ROOT, timeout=3600)
 lines = [l for l in p.stdout.splitlines() if l.startswith("VIOLATION") or l.strip().startswith("class=") or l.startswith(prop + ":")]
 meta["check"] = {"cmd": f"VERIF_REPO={wt} ./vcheck {prop} --no-evidence", "exit": p.returncode,
